@@ -65,9 +65,46 @@ func genOne(g *hx.Gen, i int) []string {
 		}
 		certs = append(certs, fmt.Sprintf("c%d.k%d.%s.%s.%s", j+1, 1+g.Intn(4), w, kidKinds[g.Intn(len(kidKinds))], hx.B01(g.Intn(4) == 0)))
 	}
-	blob := func() string {
+	// state-aware choice: most operations name something the history has touched before (so that
+	// re-adds, signs with registered certificates and removes of present identities are common),
+	// the rest name anything in the universe
+	var touched []string
+	keyOf := func(b string) string {
+		if strings.HasPrefix(b, "k") {
+			return b
+		}
+		return strings.Split(b, ".")[1]
+	}
+	fresh := func() string {
 		if g.Intn(3) == 0 {
 			return fmt.Sprintf("k%d", 1+g.Intn(4))
+		}
+		return certs[g.Intn(len(certs))]
+	}
+	blob := func() string {
+		if len(touched) > 0 && g.Intn(5) < 3 {
+			b := touched[g.Intn(len(touched))]
+			switch g.Intn(6) {
+			case 0: // the bare key behind it
+				return keyOf(b)
+			case 1: // another certificate of the same key, if any
+				for _, c := range certs {
+					if c != b && keyOf(c) == keyOf(b) {
+						return c
+					}
+				}
+			}
+			return b
+		}
+		b := fresh()
+		touched = append(touched, b)
+		return b
+	}
+	certBlob := func() string {
+		for try := 0; try < 4; try++ {
+			if b := blob(); !strings.HasPrefix(b, "k") {
+				return b
+			}
 		}
 		return certs[g.Intn(len(certs))]
 	}
@@ -86,12 +123,28 @@ func genOne(g *hx.Gen, i int) []string {
 	}
 	nops := 1 + g.Intn(24)
 	var ops []string
+	// set-up prefixes that make hardware certificates really registered: the bare key in the
+	// underlying agent, then add-hard-cert; sometimes the same certificate upstream as well
+	if g.Intn(2) == 0 {
+		for n := 1 + g.Intn(3); n > 0; n-- {
+			c := certs[g.Intn(len(certs))]
+			touched = append(touched, c)
+			ops = append(ops, "uadd="+keyOf(c)+":"+hx.HexS(comments[g.Intn(len(comments))]))
+			if g.Intn(3) == 0 {
+				ops = append(ops, "uadd="+c+":"+hx.HexS(comments[g.Intn(len(comments))]))
+			}
+			ops = append(ops, "addhard="+c+"="+hx.HexS(g.Pick([]string{"", "yk", "slot 9a"})))
+			if g.Intn(4) == 0 {
+				ops = append(ops, g.Pick([]string{"list", "signers"}))
+			}
+		}
+	}
 	slept := false
 	pass := []string{"pw", "", "other"}
 	locked, lockPass := false, ""
 	for j := 0; j < nops; j++ {
 		var op string
-		if locked && g.Intn(3) == 0 { // get out of the locked state with the right passphrase most of the time
+		if locked && g.Intn(5) == 0 { // get out of the locked state with the right passphrase most of the time
 			op = "unlock=" + hx.HexS(lockPass)
 			locked = false
 			ops = append(ops, op)
@@ -107,7 +160,11 @@ func genOne(g *hx.Gen, i int) []string {
 		case r < 12:
 			op = "add=" + ident()
 		case r < 15:
-			op = "addhard=" + blob() + "=" + hx.HexS(g.Pick([]string{"", "yk", "slot 9a"}))
+			b := certBlob()
+			if g.Intn(6) == 0 {
+				b = blob()
+			}
+			op = "addhard=" + b + "=" + hx.HexS(g.Pick([]string{"", "yk", "slot 9a"}))
 		case r < 17:
 			op = "remove=" + blob()
 		case r < 18:
